@@ -47,6 +47,8 @@ CLI_CAPS = {
     "bsdtar-pax":     CAPS["pax"],
     "bsdtar-gnutar":  CAPS["gnutar"],
     "bsdtar-default-S": dict(CAPS["pax"], mtime_res=1, mtime_alt=10**9),
+    # holes stored as zeros in the archive (no sparse map), re-created by the sparsifying disk writer
+    "bsdtar-pax-dense-S": CAPS["pax"],
     "bsdcpio-newc":   dict(CAPS["newc"], path_max=4000),
 }
 
@@ -388,6 +390,7 @@ def cli_pipelines(ctx):
         "bsdtar-pax":    lambda src, dst: "%s -cf - --format pax -C %s . | %s -xpf - -C %s" % (t, q(src), t, q(dst)),
         "bsdtar-gnutar": lambda src, dst: "%s -cf - --format gnutar -C %s . | %s -xpf - -C %s" % (t, q(src), t, q(dst)),
         "bsdtar-default-S": lambda src, dst: "%s -cf - -C %s . | %s -xpSf - -C %s" % (t, q(src), t, q(dst)),
+        "bsdtar-pax-dense-S": lambda src, dst: "%s -cf - --format pax --no-read-sparse -C %s . | %s -xpSf - -C %s" % (t, q(src), t, q(dst)),
         "bsdcpio-newc":  lambda src, dst: "cd %s && find . -depth -print | %s -o -H newc | (cd %s && %s -idm)" % (q(src), c, q(dst), c),
     }
 
@@ -714,7 +717,7 @@ def probe_plan():
     ]
 
 ALL_FORMATS = ["pax", "gnutar", "newc", "zip", "7zip", "xar", "iso9660", "mtree"]
-ALL_CLIS = ["bsdtar-default", "bsdtar-pax", "bsdtar-gnutar", "bsdtar-default-S", "bsdcpio-newc"]
+ALL_CLIS = ["bsdtar-default", "bsdtar-pax", "bsdtar-gnutar", "bsdtar-default-S", "bsdtar-pax-dense-S", "bsdcpio-newc"]
 
 def run(rep):
     pr = vlib.proof_part(rep, "C12")
